@@ -307,7 +307,7 @@ PROPS = {
         "assumptions": ["fft_stream.rs (plain FFT framing) is covered by C08 self-checks only"],
     },
     "C12": {
-        "required_theorems": ["c12_sync_same_index", "c12_sync_any_chunking", "c12_contract_sync", "c12_skip", "c12_delay", "c12_fir"],
+        "required_theorems": ["c12_sync_same_index", "c12_sync_any_chunking", "c12_contract_sync", "c12_skip", "c12_delay", "c12_fir", "c12_fft"],
         "runs": [
             {"sub": "blocks", "quick": ["--seed", "{seed}", "--set", "modelled", "--cases", 1200, "--steps", 40, "--tag-heavy", 1],
              "thorough": ["--seed", "{seed}", "--set", "modelled", "--cases", 60000, "--steps", 80, "--tag-heavy", 1]},
@@ -659,7 +659,9 @@ MANIFEST_TEXT = {
                 "of its sample, for every chunking; every generated work() hands produce(n, tags) only tags with pos < n (so "
                 "unprocessed samples keep their tags in the stream); Skip and Delay forward exactly the tags of the copied "
                 "samples (Delay shifted by the zeros of that call); FirFilter forwards the tags of exactly the consumed samples "
-                "at index/decimation, inside the committed outputs (c12_fir). Other tag-carrying blocks: identical tag multisets between a "
+                "at index/decimation, inside the committed outputs (c12_fir); FftFilter, which buffers tags across calls with the "
+                "unfinished batch, for EVERY schedule: the tags handed on are exactly (as a multiset) the input tags of the emitted "
+                "samples at the same index and the rest are still held (c12_fft). Other tag-carrying blocks: identical tag multisets between a "
                 "drip-fed and a greedy real run, plus model comparison for correlator/burst tagger.",
         "design_ref": "DESIGN.md section 2, C12",
         "note": "The unfiltered-tags defects in Skip/FirFilter/Hilbert/Delay/FftFilter/Cma were repaired by fix: commits.",
